@@ -18,6 +18,7 @@ import (
 	"hash/crc32"
 	"io"
 	"os"
+	"os/exec"
 	"path/filepath"
 	"sort"
 	"strconv"
@@ -35,17 +36,113 @@ func init() {
 		c19HelperMain()
 		os.Exit(0)
 	}
+	if os.Getenv("C19_CRASHPROBE") == "1" {
+		c19CrashProbeMain()
+		os.Exit(0)
+	}
 	groups["zmodem"] = genZmodemGroup
+}
+
+// ---- Ctrl-C before the session's goroutine has begun (run in a child process) ----
+//
+// wrapOutput publishes the session (CompareAndSwap), writes the hide-cursor sequence to the
+// terminal and only then starts handleZmodemEvent, which is what stores the session's
+// writers.  A terminal that is slow to take the hide-cursor sequence keeps that window open;
+// Ctrl-C typed inside it reaches handleZmodemError with serverIn == nil.  The pinned code
+// dies of a nil dereference there (the whole client process), so the probe runs in a child.
+func c19CrashProbeMain() {
+	hdr := []byte("rz\r**\x18B00000000000000\r\x8a\x11")
+	dir, _ := os.MkdirTemp("", "c19probe")
+	defer os.RemoveAll(dir)
+	cinR, cinW := io.Pipe()
+	coutR, coutW := io.Pipe()
+	sinR, sinW := io.Pipe()
+	soutR, soutW := io.Pipe()
+	filter := trzsz.NewTrzszFilter(cinR, coutW, sinW, soutR, trzsz.TrzszOptions{EnableZmodem: true})
+	filter.SetDefaultDownloadPath(dir)
+	srv := &c19Log{start: time.Now()}
+	go srv.pump(sinR)
+	go func() { // the slow terminal: after the forwarded header it takes 400 ms to accept more
+		buf := make([]byte, 1<<16)
+		for {
+			n, err := coutR.Read(buf)
+			if err != nil {
+				return
+			}
+			if bytes.Equal(buf[:n], hdr) {
+				time.Sleep(400 * time.Millisecond)
+			}
+		}
+	}()
+	soutW.Write(hdr)
+	visible := false
+	for k := 0; k < 300 && !visible; k++ {
+		visible = trzsz.VerifZmodemCurrent(filter) != nil
+		if !visible {
+			time.Sleep(time.Millisecond)
+		}
+	}
+	time.Sleep(50 * time.Millisecond)
+	cinW.Write([]byte{3})
+	time.Sleep(1500 * time.Millisecond)
+	cancel, enter := false, false
+	for _, w := range srv.snapshot() {
+		cancel = cancel || bytes.Equal(w.b, c19CancelFull)
+		enter = enter || bytes.Equal(w.b, []byte("\r"))
+	}
+	fmt.Printf("survived visible=%v cancel=%v cleaned=%v\n", visible, cancel, enter)
+}
+
+func c19CrashProbe(c *ctx, exe, bindir string) {
+	cmd := exec.Command(exe)
+	cmd.Env = append(os.Environ(), "C19_CRASHPROBE=1", "PATH="+bindir)
+	done := make(chan struct{})
+	var out []byte
+	var err error
+	go func() { out, err = cmd.CombinedOutput(); close(done) }()
+	select {
+	case <-done:
+	case <-time.After(20 * time.Second):
+		cmd.Process.Kill()
+		<-done
+	}
+	c.count("crash-probe:runs")
+	txt := string(out)
+	detail := "history: the server writes \"rz\\r**\\x18B00000000000000\\r\\x8a\\x11\"; the terminal takes 400 ms to accept the hide-cursor sequence; 50 ms after the session became visible the user types 0x03; child output: " + txt
+	if len(detail) > 3000 {
+		detail = detail[:3000]
+	}
+	switch {
+	case err != nil && strings.Contains(txt, "panic"):
+		c.violate("ctrl-c-before-session-goroutine-crash",
+			"Ctrl-C typed after the zmodem session was published but before handleZmodemEvent had stored its writers kills the whole client process (nil dereference in handleZmodemError)", detail)
+	case err != nil:
+		c.violate("ctrl-c-before-session-goroutine-probe-failed", "the crash probe child failed: "+err.Error(), detail)
+	case !strings.Contains(txt, "visible=true cancel=true cleaned=true"):
+		c.violate("ctrl-c-before-session-goroutine-ignored",
+			"Ctrl-C typed before the session's goroutine had begun did not cancel and clean up the session", detail)
+	}
 }
 
 // ---- the fake helper: cwd is the scenario directory ----
 //
+//	./born.log  one line per helper process that was started (appended first of all)
+//	./greet     (optional) hex of what to print right after the start, as lrzsz prints its ZRINIT / ZRQINIT
 //	./autoexit  (optional) exit at once with the code in the file
 //	./stdin.log everything received on stdin, appended unbuffered
 //	./ctl       FIFO with lines "<unix ms> out <hex>" (write to stdout) and "<unix ms> exit <code>";
 //	            commands issued before this process started are stale (meant for nobody) and skipped
 func c19HelperMain() {
 	born := time.Now().UnixMilli()
+	if bl, err := os.OpenFile("born.log", os.O_WRONLY|os.O_CREATE|os.O_APPEND, 0600); err == nil {
+		fmt.Fprintf(bl, "%s %d\n", filepath.Base(os.Args[0]), born)
+		bl.Close()
+	}
+	if b, err := os.ReadFile("greet"); err == nil {
+		if g, err := hex.DecodeString(strings.TrimSpace(string(b))); err == nil && len(g) > 0 {
+			os.Stdout.Write(g)
+		}
+	}
 	if b, err := os.ReadFile("autoexit"); err == nil {
 		code, _ := strconv.Atoi(strings.TrimSpace(string(b)))
 		os.Exit(code)
@@ -108,6 +205,7 @@ type c19Ev struct {
 type c19Scenario struct {
 	launch     string // ok | fail (work dir missing) | chooser (no path configured, no dialog tool) | absent (helper not on PATH)
 	autoexit   int    // -1: the helper waits for commands; otherwise it exits at once with this code
+	greet      []byte // what the helper prints right after it started (nil: nothing)
 	evs        []c19Ev
 	horizon    int
 	ended      bool // the script contains an event after which the terminal must come back
@@ -142,7 +240,7 @@ func (sc *c19Scenario) modelArgs(readerr string) []string {
 	if len(parts) > 0 {
 		ev = strings.Join(parts, ";")
 	}
-	return []string{launch, ae, dl, readerr, strconv.Itoa(sc.horizon), ev}
+	return []string{launch, ae, dl, hx(sc.greet), readerr, strconv.Itoa(sc.horizon), ev}
 }
 
 type c19Write struct {
@@ -197,6 +295,8 @@ type c19Result struct {
 	probeCtrlC int      // how many of the probe's two lone Ctrl-C bytes reached the server
 	startedOn  [][]byte // chunks right after whose forwarding the cursor was hidden
 	driftMs    int      // how late the harness itself was with its worst scripted event
+	launches   int      // how many helper processes were started (lines of born.log)
+	aborted    bool     // the run was given up before an event that would have hit the pinned code's crash window
 }
 
 func c19TermItem(b []byte) (string, bool) {
@@ -274,6 +374,9 @@ func c19Run(sc *c19Scenario) (res c19Result) {
 	if sc.autoexit >= 0 {
 		os.WriteFile(filepath.Join(work, "autoexit"), []byte(strconv.Itoa(sc.autoexit)), 0600)
 	}
+	if len(sc.greet) > 0 {
+		os.WriteFile(filepath.Join(work, "greet"), []byte(hex.EncodeToString(sc.greet)), 0600)
+	}
 	switch sc.launch {
 	case "ok", "absent":
 		filter.SetDefaultDownloadPath(work)
@@ -304,6 +407,7 @@ func c19Run(sc *c19Scenario) (res c19Result) {
 			last = cur
 		}
 	}
+	lastHdrAt := -1
 	for _, e := range sc.evs {
 		if d := time.Until(start.Add(time.Duration(e.t) * time.Millisecond)); d > 0 {
 			time.Sleep(d)
@@ -312,6 +416,28 @@ func c19Run(sc *c19Scenario) (res c19Result) {
 			res.driftMs = d
 		}
 		poll()
+		if e.kind == 'i' && len(e.data) == 1 && e.data[0] == 3 && lastHdrAt >= 0 && e.t < lastHdrAt+100 {
+			// Ctrl-C inside the grace period: the session must be visible and its goroutine
+			// must have begun (before that the pinned code dereferences a nil writer and the
+			// whole process dies, see c19CrashProbe); otherwise give this run up
+			ok := false
+			for k := 0; k < 35 && !ok; k++ {
+				if cur := trzsz.VerifZmodemCurrent(filter); cur != nil && cur.Begun() {
+					ok = true
+				} else {
+					time.Sleep(time.Millisecond)
+				}
+			}
+			if !ok {
+				res.aborted, res.driftMs = true, 999
+				cinW.Close()
+				return
+			}
+			poll()
+		}
+		if e.kind == 's' && trzsz.VerifDetectZmodem(e.data) >= 0 && trzsz.VerifZmodemCurrent(filter) == nil {
+			lastHdrAt = e.t
+		}
 		switch e.kind {
 		case 's':
 			soutW.Write(e.data)
@@ -330,6 +456,9 @@ func c19Run(sc *c19Scenario) (res c19Result) {
 	ptr := trzsz.VerifZmodemCurrent(filter) != nil
 	tw, sw := term.snapshot(), srv.snapshot()
 	stdin, _ := os.ReadFile(filepath.Join(work, "stdin.log"))
+	if bl, err := os.ReadFile(filepath.Join(work, "born.log")); err == nil {
+		res.launches = bytes.Count(bl, []byte("\n"))
+	}
 	cinW.Close() // ends wrapInput; wrapOutput stays blocked in Read (never sees EOF)
 	_ = soutW
 
@@ -422,7 +551,7 @@ func c19Run(sc *c19Scenario) (res c19Result) {
 		p = "1"
 	}
 	res.readerr = j(readerr)
-	res.canon = "T=" + j(res.term) + "|S=" + j(res.srv) + "|H=" + hx(stdin) + "|F=" + flags + "|P=" + p
+	res.canon = "T=" + j(res.term) + "|S=" + j(res.srv) + "|H=" + hx(stdin) + "|F=" + flags + "|P=" + p + "|L=" + strconv.Itoa(res.launches)
 	return
 }
 
@@ -536,6 +665,10 @@ func c19Scen(c *ctx, launch string) *c19Scenario {
 			tag("helper-exits-at-once-3")
 		}
 	}
+	if launch == "ok" && sc.autoexit < 0 && c.rng.Intn(3) == 0 {
+		sc.greet = c19Greets[c.rng.Intn(len(c19Greets))]
+		tag("helper-greets")
+	}
 	const slot = 400
 	t := 0
 	if c.rng.Intn(4) == 0 { // some pass-through traffic before the session
@@ -604,6 +737,71 @@ func c19Scen(c *ctx, launch string) *c19Scenario {
 	return sc
 }
 
+// what lrzsz prints when it starts
+var c19Greets = [][]byte{
+	[]byte("**\x18B0100000023be50\r\x8a\x11"),
+	[]byte("rz waiting to receive.**\x18B0100000023be50\r\x8a\x11"),
+	[]byte("**\x18B00000000000000\r\x8a\x11"),
+}
+
+// c19GraceScen: the remote side gives up (or the user does) INSIDE the grace period of
+// handleZmodemEvent - the header, then 15 or 40 ms later and in a separate read the
+// cancel sequence / "cannot open " / a typed Ctrl-C - followed by ordinary shell traffic
+// in both directions.  The helper, were it started, would greet like lrzsz does.
+func c19GraceScen(c *ctx, launch string) *c19Scenario {
+	sc := &c19Scenario{launch: launch, autoexit: -1}
+	tag := func(s string) { sc.tags = append(sc.tags, s) }
+	tag("launch:" + launch)
+	tag("grace-stratum")
+	sc.greet = c19Greets[c.rng.Intn(len(c19Greets))]
+	const slot = 400
+	t := 0
+	if c.rng.Intn(2) == 0 {
+		sc.evs = append(sc.evs, c19Ev{t: t, kind: 'i', data: []byte("sz -e big.bin\r")})
+		t += slot
+		sc.evs = append(sc.evs, c19Ev{t: t, kind: 's', data: append(c19Uniq("echo"), "sz -e big.bin\r\n"...)})
+		t += slot
+	}
+	up := c.rng.Intn(2) == 0
+	if up {
+		tag("upload")
+	} else {
+		tag("download")
+	}
+	sc.evs = append(sc.evs, c19Ev{t: t, kind: 's', data: c19HeaderChunk(c, up, 0)})
+	delta := []int{15, 40}[c.rng.Intn(2)]
+	switch c.rng.Intn(5) {
+	case 0:
+		sc.evs = append(sc.evs, c19Ev{t: t + delta, kind: 's', data: append(append([]byte(nil), c19CancelFull...), "\r\n$ "...)})
+		tag("grace-cancel-full")
+	case 1:
+		sc.evs = append(sc.evs, c19Ev{t: t + delta, kind: 's', data: append(c19Uniq("x"), c19CancelSub...)})
+		tag("grace-cancel-sub")
+	case 2:
+		sc.evs = append(sc.evs, c19Ev{t: t + delta, kind: 's', data: append(c19Uniq("n"), "sz: cannot open big.bin: No such file or directory\r\n$ "...)})
+		tag("grace-cannot-open")
+	case 3:
+		b := append(c19Uniq("m"), "sz: cannot open a\r\n"...)
+		sc.evs = append(sc.evs, c19Ev{t: t + delta, kind: 's', data: append(b, c19CancelFull...)})
+		tag("grace-cannot-open+cancel")
+	default:
+		sc.evs = append(sc.evs, c19Ev{t: t + delta, kind: 'i', data: []byte{3}})
+		tag("grace-ctrl-c")
+	}
+	n := 2 + c.rng.Intn(4)
+	for i := 0; i < n; i++ {
+		t += slot
+		if c.rng.Intn(2) == 0 {
+			sc.evs = append(sc.evs, c19Ev{t: t, kind: 'i', data: append(c19Uniq("ls"), '\r')})
+		} else {
+			sc.evs = append(sc.evs, c19Ev{t: t, kind: 's', data: append(c19Uniq("out"), "\r\n$ "...)})
+		}
+	}
+	sc.ended = c19Ended(sc)
+	c19AddProbe(sc, t, slot)
+	return sc
+}
+
 // c19Ended: does the script leave no session running?  (Implementation-side reasoning
 // only, deliberately conservative: when in doubt the session counts as still running and
 // the probe oracles do not apply.)
@@ -615,7 +813,7 @@ func c19Ended(sc *c19Scenario) bool {
 		case e.kind == 's' && !live && trzsz.VerifDetectZmodem(e.data) >= 0:
 			live = sc.launch == "ok" && sc.autoexit < 0
 			hdrAt = e.t
-		case e.kind == 's' && live && e.t == hdrAt+40 && (bytes.Contains(e.data, c19CancelSub) || bytes.Contains(e.data, c19CannotOpen)):
+		case e.kind == 's' && live && e.t > hdrAt && e.t < hdrAt+100 && (bytes.Contains(e.data, c19CancelSub) || bytes.Contains(e.data, c19CannotOpen)):
 			live = false // the server gave up before the helper was started
 		case e.kind == 'x' && live && e.t >= hdrAt+400:
 			live = false
@@ -744,18 +942,22 @@ func c19RunAll(scs []*c19Scenario, par int) []c19Result {
 }
 
 // c19ParseReplay rebuilds a scenario from the model arguments of a case line
-// (launch, autoexit, dlpath, horizon, events), e.g. from a MISMATCH line or a replay file:
+// (launch, autoexit, dlpath, greet, horizon, events), e.g. from a MISMATCH line or a replay file:
 //
-//	C19_REPLAY='ok|-|1|3900|0:s:2a2a...;400:i:03' corr zmodem 1 quick /dev/null /dev/null
+//	C19_REPLAY='ok|-|1|-|3900|0:s:2a2a...;400:i:03' corr zmodem 1 quick /dev/null /dev/null
 func c19ParseReplay(spec string) *c19Scenario {
 	w := strings.Split(spec, "|")
-	if len(w) == 6 { // with the observed read-error list: ignored, it is observed again
-		w = append(w[:3], w[4:]...)
+	if len(w) == 7 { // with the observed read-error list: ignored, it is observed again
+		w = append(w[:4], w[5:]...)
 	}
-	if len(w) != 5 {
-		panic("C19_REPLAY: want launch|autoexit|dlpath[|readerr]|horizon|events")
+	if len(w) != 6 {
+		panic("C19_REPLAY: want launch|autoexit|dlpath|greet[|readerr]|horizon|events")
 	}
 	sc := &c19Scenario{launch: w[0], autoexit: -1}
+	if w[3] != "-" {
+		sc.greet, _ = hex.DecodeString(w[3])
+	}
+	w = append(w[:3], w[4:]...)
 	if w[1] != "-" {
 		sc.autoexit, _ = strconv.Atoi(w[1])
 	}
@@ -839,9 +1041,22 @@ func genZmodemGroup(c *ctx) {
 	oldPath := os.Getenv("PATH")
 	defer os.Setenv("PATH", oldPath)
 	os.Setenv("C19_HELPER", "1")
+	c19CrashProbe(c, exe, bindir)
 
 	var present, absent []*c19Scenario
 	present = append(present, c19Corpus(c)...)
+	for i, n := 0, c.pick(40, 300); i < n; i++ {
+		switch r := c.rng.Intn(10); {
+		case r < 7:
+			present = append(present, c19GraceScen(c, "ok"))
+		case r < 8:
+			present = append(present, c19GraceScen(c, "fail"))
+		case r < 9:
+			present = append(present, c19GraceScen(c, "chooser"))
+		default:
+			absent = append(absent, c19GraceScen(c, "absent"))
+		}
+	}
 	nRandom := c.pick(150, 1500)
 	for i := 0; i < nRandom; i++ {
 		switch r := c.rng.Intn(20); {
@@ -887,6 +1102,10 @@ func genZmodemGroup(c *ctx) {
 		for _, t := range sc.tags {
 			c.count(t)
 		}
+		if r.aborted {
+			c.count("aborted:session-goroutine-not-begun-in-35ms")
+			continue
+		}
 		args := append([]string{"1"}, sc.modelArgs(r.readerr)...)
 		if r.driftMs > 25 {
 			c.count("harness-late>25ms")
@@ -900,9 +1119,9 @@ func genZmodemGroup(c *ctx) {
 }
 
 func c19Oracles(c *ctx, sc *c19Scenario, r *c19Result, args []string) {
-	detail := fmt.Sprintf("scenario launch=%s autoexit=%d events=%s horizon=%d; observed %s; replay: C19_REPLAY='%s|%s|1|%d|%s'",
+	detail := fmt.Sprintf("scenario launch=%s autoexit=%d events=%s horizon=%d; observed %s; replay: C19_REPLAY='%s|%s|1|%s|%d|%s'",
 		sc.launch, sc.autoexit, args[len(args)-1], sc.horizon, r.canon,
-		sc.launch, args[2], sc.horizon, args[len(args)-1])
+		sc.launch, args[2], hx(sc.greet), sc.horizon, args[len(args)-1])
 	// the scenario without its probe tail identifies the failing input
 	var pre []string
 	for _, e := range sc.evs {
@@ -950,9 +1169,76 @@ func c19Oracles(c *ctx, sc *c19Scenario, r *c19Result, args []string) {
 			c.count("passthrough>1.2s")
 		}
 	}
+	c19GraceOracle(c, sc, r, scen, detail)
 	for _, ch := range r.startedOn {
 		if bytes.Contains(ch, c19CancelSub) || bytes.Contains(ch, c19CannotOpen) {
 			c.violate("zmodem-start-on-veto:"+hx(ch), "a session was started on a chunk carrying a cancel sequence or 'cannot open '", detail)
+		}
+	}
+}
+
+// c19GraceOracle, judged on the real filter only: the first accepted header of the script
+// is followed INSIDE the 100 ms grace period (in a separate read) by the remote side giving
+// up, or by Ctrl-C, and no other header follows.  Then no local helper may ever be started;
+// after the remote cancel moreover nothing may be written to the server that the user did
+// not type, and the terminal must get exactly the server's chunks plus the one hide/show
+// pair around the trigger.
+func c19GraceOracle(c *ctx, sc *c19Scenario, r *c19Result, scen, detail string) {
+	hdr := -1
+	for i, e := range sc.evs {
+		if e.kind == 's' && trzsz.VerifDetectZmodem(e.data) >= 0 {
+			if hdr >= 0 {
+				return // a second header: another session may legitimately start
+			}
+			hdr = i
+		}
+	}
+	if hdr < 0 || hdr+1 >= len(sc.evs) {
+		return
+	}
+	e2 := sc.evs[hdr+1]
+	if e2.t <= sc.evs[hdr].t || e2.t >= sc.evs[hdr].t+100 {
+		return
+	}
+	remote := e2.kind == 's' && (bytes.Contains(e2.data, c19CancelSub) || bytes.Contains(e2.data, c19CannotOpen))
+	ctrlC := e2.kind == 'i' && len(e2.data) == 1 && e2.data[0] == 3
+	switch {
+	case remote:
+		c.count("oracle:grace-remote-cancel")
+		if r.launches != 0 {
+			c.violate("helper-started-after-grace-cancel:"+scen,
+				fmt.Sprintf("the remote side cancelled %d ms after its zmodem header, inside the grace period, yet %d local helper process(es) were started", e2.t-sc.evs[hdr].t, r.launches), detail)
+		}
+		var wantSrv, wantTerm []string
+		for i, e := range sc.evs {
+			switch e.kind {
+			case 'i':
+				wantSrv = append(wantSrv, "d"+hx(e.data))
+			case 's':
+				if i == hdr+1 {
+					wantTerm = append(wantTerm, "s")
+				}
+				wantTerm = append(wantTerm, "f"+hx(e.data))
+				if i == hdr {
+					wantTerm = append(wantTerm, "h")
+				}
+			}
+		}
+		if strings.Join(r.srv, ",") != strings.Join(wantSrv, ",") {
+			c.violate("injected-after-grace-cancel:"+scen,
+				"after a remote cancel inside the grace period the server must receive exactly what the user typed; it received "+
+					strings.Join(r.srv, ",")+" instead of "+strings.Join(wantSrv, ","), detail)
+		}
+		if strings.Join(r.term, ",") != strings.Join(wantTerm, ",") {
+			c.violate("terminal-altered-after-grace-cancel:"+scen,
+				"after a remote cancel inside the grace period the terminal must receive exactly the server's output (plus one hide/show pair around the trigger); it received "+
+					strings.Join(r.term, ",")+" instead of "+strings.Join(wantTerm, ","), detail)
+		}
+	case ctrlC:
+		c.count("oracle:grace-ctrl-c")
+		if r.launches != 0 {
+			c.violate("helper-started-after-grace-stop:"+scen,
+				fmt.Sprintf("the user pressed Ctrl-C %d ms after the zmodem header, inside the grace period, yet %d local helper process(es) were started", e2.t-sc.evs[hdr].t, r.launches), detail)
 		}
 	}
 }
